@@ -15,7 +15,7 @@ use crate::verif_seam::tokio_net::{TcpStream, ToSocketAddrs};
 #[cfg(not(repe_verif))]
 use std::collections::HashMap;
 use std::io::ErrorKind;
-use std::sync::atomic::{AtomicU64, Ordering};
+use std::sync::atomic::{AtomicBool, AtomicU64, Ordering};
 use std::sync::{Arc, Mutex as StdMutex};
 use tokio::io::AsyncWriteExt;
 use tokio::io::{BufReader, BufWriter};
@@ -40,6 +40,24 @@ struct AsyncClientInner {
     pending: StdMutex<PendingRequests>,
     next_id: AtomicU64,
     shutdown: StdMutex<Option<oneshot::Sender<()>>>,
+    /// Set when a request write was abandoned (its future dropped) or failed
+    /// before the frame was completely flushed. Part of that frame may be on
+    /// the wire, so nothing may be written after it.
+    write_torn: AtomicBool,
+}
+
+/// Marks the connection as torn unless the frame was written and flushed in full.
+struct TornWriteGuard<'a> {
+    write_torn: &'a AtomicBool,
+    complete: bool,
+}
+
+impl Drop for TornWriteGuard<'_> {
+    fn drop(&mut self) {
+        if !self.complete {
+            self.write_torn.store(true, Ordering::Release);
+        }
+    }
 }
 
 impl Drop for AsyncClientInner {
@@ -122,6 +140,7 @@ impl AsyncClient {
             pending: StdMutex::new(HashMap::new()),
             next_id: AtomicU64::new(1),
             shutdown: StdMutex::new(Some(shutdown_tx)),
+            write_torn: AtomicBool::new(false),
         });
 
         spawn_response_loop(
@@ -672,8 +691,25 @@ impl AsyncClient {
 
     async fn write_request(&self, msg: &Message) -> Result<(), RepeError> {
         let mut writer = self.inner.writer.lock().await;
+        if self.inner.write_torn.load(Ordering::Acquire) {
+            // An earlier request write was abandoned or failed part-way: part
+            // of that frame may be on the wire and the peer could never
+            // re-synchronise if another frame followed it. Fail the connection
+            // instead (the peer sees end-of-stream, the response loop then
+            // fails every waiter).
+            let _ = writer.get_mut().shutdown().await;
+            return Err(torn_connection_error());
+        }
+        // The writes below are cancellable (the caller may drop this future at
+        // any await point), so the guard records a frame that was not written
+        // and flushed in full.
+        let mut guard = TornWriteGuard {
+            write_torn: &self.inner.write_torn,
+            complete: false,
+        };
         write_message_async(&mut *writer, msg).await?;
         writer.flush().await?;
+        guard.complete = true;
         Ok(())
     }
 
@@ -943,6 +979,13 @@ fn clone_fatal_error_for_waiter(err: &RepeError, request_id: u64) -> RepeError {
             limit: *limit,
         },
     }
+}
+
+fn torn_connection_error() -> RepeError {
+    RepeError::Io(std::io::Error::new(
+        ErrorKind::BrokenPipe,
+        "connection failed: an earlier request write was abandoned or failed mid-frame",
+    ))
 }
 
 fn request_timeout_error(request_id: u64, timeout: Duration) -> RepeError {
